@@ -322,9 +322,13 @@ func handleLaunchEvent(state *internalState, taskInfo mesos.TaskInfo) error {
 
 // Attempts to kill a task. This function is thread-safe with respect to state.
 func handleKillEvent(state *internalState, e *executor.Event_Kill) error {
-	state.activeTasksMu.RLock()
+	// Look the task up and take it out of activeTasks in one critical section: the goroutine below
+	// may not have run yet when the next KILL for the same task is handled, and that KILL must not
+	// find the task a second time.
+	state.activeTasksMu.Lock()
 	activeTask, ok := state.activeTasks[e.GetTaskID()]
-	state.activeTasksMu.RUnlock()
+	delete(state.activeTasks, e.GetTaskID())
+	state.activeTasksMu.Unlock()
 	if !ok {
 		// e.g. a repeated KILL, or a KILL crossing the task's own terminal status: nothing to do.
 		// Returning an error here would end eventLoop and disconnect the executor.
